@@ -87,7 +87,9 @@ Definition req_case (w L : nat) (pat pat2 : seq nat) (c : rcomp) (i : nat) (k : 
   t_verify L (perturb_req (pg (tpp L)) (t_blind L (1 + 10 * w) pat).1 (t_blind L (2 + 10 * w) pat2).1 c i k).
 
 (* a prover lying about one witness: lie 0 none, 1 a_i, 2 b_i, 3 the commitment randomness; 4 a simulated proof without
-   witnesses (responses first, commitments solved for the guessed challenge 1: accepted only if the challenge is 1) *)
+   witnesses (responses first, commitments solved for the guessed challenge 1: accepted only if the challenge is 1);
+   compensating alterations of components i and i+1 (cyclically), +d and -d, so that sums / products over the vector are
+   preserved: 5 a (before proving), 6 b (before proving), 7 f, 8 d, 9 x, 10 y (in the finished proof) *)
 Definition forged_request (w L : nat) (pat : seq nat) (lie i : nat) : request TG :=
   let pp := tpp L in let n := L.+1 in let s := (1 + 10 * w)%N in
   let m := msgs_w w pat in
@@ -100,15 +102,23 @@ Definition forged_request (w L : nat) (pat : seq nat) (lie i : nat) : request TG
   let h := tHG cm in
   let msg := rcons m mp in
   let ab := encrypt pp n msg r h u in
-  let a := if lie == 1%N then bump ab.1 i (pg pp) else ab.1 in
-  let b := if lie == 2%N then bump ab.2 i (pg pp) else ab.2 in
+  let j := ((i + 1) %% n)%N in
+  let comp (V : zmodType) (v : seq V) (d : V) : seq V := bump (bump v i d) j (- d) in
+  let a := if lie == 1%N then bump ab.1 i (pg pp) else if lie == 5%N then comp _ ab.1 (pg pp) else ab.1 in
+  let b := if lie == 2%N then bump ab.2 i (pg pp) else if lie == 6%N then comp _ ab.2 (pg pp) else ab.2 in
   let rc' := if lie == 3%N then rc + 1 else rc in
   let xi := prove_blinding tRO1 n msg r a b rc' (pg pp) (pg0 pp) h u cm (pgs pp)
               (mkseq (fun i => nonce s (10 + i)) n) (mkseq (fun i => nonce s (20 + i)) n) (nonce s 2) in
   let xs := mkseq (fun i => nonce s (50 + i)) n in let ys := mkseq (fun i => nonce s (60 + i)) n in let zs := nonce s 49 in
   let sim := BProof xs ys (zs *: pg0 pp + lin n ys (pgs pp) - cm) zs
                     (mkseq (fun i => xs`_i *: u + ys`_i *: h - b`_i) n) (mkseq (fun i => xs`_i *: pg pp - a`_i) n) in
-  Req (if lie == 4%N then sim else xi) cm0 mp u a b.
+  let xi2 := match lie with
+             | 7 => BProof (bx xi) (by_ xi) (bs xi) (bz xi) (bd xi) (comp _ (bf xi) (pg pp))
+             | 8 => BProof (bx xi) (by_ xi) (bs xi) (bz xi) (comp _ (bd xi) (pg pp)) (bf xi)
+             | 9 => BProof (comp _ (bx xi) 1) (by_ xi) (bs xi) (bz xi) (bd xi) (bf xi)
+             | 10 => BProof (bx xi) (comp _ (by_ xi) 1) (bs xi) (bz xi) (bd xi) (bf xi)
+             | _ => xi end in
+  Req (if lie == 4%N then sim else xi2) cm0 mp u a b.
 
 Definition reqforge_case (w L : nat) (pat : seq nat) (lie i : nat) : bool * bool := t_verify L (forged_request w L pat lie i).
 
